@@ -171,4 +171,82 @@ instance (priority := low) gpStoreI : StoreI (GPS grow) where
 @[simp] theorem gps_mergeWith (x o : GPS grow) : StoreI.MergeWith x o = gMergeWith x o := rfl
 @[simp] theorem gps_reweight (x : GPS grow) (w : F64) : StoreI.Reweight x w = gReweight x w := rfl
 
+
+/-! ### the model image of an embedded store -/
+
+theorem ofGen_toGen (s : PStore) (cap : Int) : ofGen (toGen s cap) = s := by
+  cases s with
+  | mk buffer trigger pages minPageIndex pageLenLog2 =>
+    simp only [ofGen, toGen, pagesL, Int.toNat_natCast, List.map_map]
+    congr 1
+    apply Array.ext'
+    simp [Function.comp_def]
+
+/-! ### the simulation relation -/
+
+/-- the regenerated store and the model store hold the same content (both inside the invariant) -/
+def Sim (x : GPS grow) (st : Store) : Prop :=
+  ∃ (s s' : PStore) (cap : Int), x.g = toGen s cap ∧ st = .pg s' ∧ Inv s ∧ Inv s' ∧ content s = content s'
+
+theorem sim_new : Sim (⟨NewBufferedPaginatedStore⟩ : GPS grow) (Store.new .pag) :=
+  ⟨PStore.new, PStore.new, 4, new_spec, rfl, PStore.inv_new, PStore.inv_new, rfl⟩
+
+theorem errMin_eq : Gen.Paginated.errUndefinedMinIndex = GenSketch.errUndefinedMinIndex := rfl
+theorem errMax_eq : Gen.Paginated.errUndefinedMaxIndex = GenSketch.errUndefinedMaxIndex := rfl
+
+/-! ### observers -/
+
+theorem sim_isEmpty {x : GPS grow} {st : Store} (h : Sim x st) :
+    (StoreI.IsEmpty x : Bool) = StoreI.IsEmpty st := by
+  obtain ⟨s, s', cap, hx, rfl, hi, hi', hc⟩ := h
+  simp only [gps_isEmpty, gIsEmpty, hx, isEmpty_spec, okOr_ok, GenSketch.store_isEmpty, Store.isEmpty]
+  rw [(Props.C04Pag.observers_eq s hi).2.2.1, (Props.C04Pag.observers_eq s' hi').2.2.1, hc]
+
+theorem sim_totalCount {x : GPS grow} {st : Store} (h : Sim x st) :
+    (StoreI.TotalCount x : F64) = StoreI.TotalCount st := by
+  obtain ⟨s, s', cap, hx, rfl, hi, hi', hc⟩ := h
+  simp only [gps_totalCount, gTotalCount, hx, totalCount_spec, okOr_ok, GenSketch.store_totalCount,
+    Store.totalCount]
+  rw [(Props.C04Pag.observers_eq s hi).2.1, (Props.C04Pag.observers_eq s' hi').2.1, hc]
+
+theorem sim_minIndex {x : GPS grow} {st : Store} (h : Sim x st) :
+    (StoreI.MinIndex x : Int × GoErr) = StoreI.MinIndex st := by
+  obtain ⟨s, s', cap, hx, rfl, hi, hi', hc⟩ := h
+  simp only [gps_minIndex, gMinIndex, hx, ofGen_toGen, GenSketch.store_minIndex, GenSketch.storeMinIndex,
+    Store.minIndex?]
+  rw [MinIndex_eq_of_inv s cap _ hi (Nat.le_succ _), okOr_ok,
+    (Props.C04Pag.observers_eq s hi).2.2.2.1, (Props.C04Pag.observers_eq s' hi').2.2.2.1, hc, errMin_eq]
+  cases (content s').minIndex? <;> rfl
+
+theorem sim_maxIndex {x : GPS grow} {st : Store} (h : Sim x st) :
+    (StoreI.MaxIndex x : Int × GoErr) = StoreI.MaxIndex st := by
+  obtain ⟨s, s', cap, hx, rfl, hi, hi', hc⟩ := h
+  simp only [gps_maxIndex, gMaxIndex, hx, ofGen_toGen, GenSketch.store_maxIndex, GenSketch.storeMaxIndex,
+    Store.maxIndex?]
+  rw [MaxIndex_eq s cap _ (Nat.le_succ _), okOr_ok,
+    (Props.C04Pag.observers_eq s hi).2.2.2.2.1, (Props.C04Pag.observers_eq s' hi').2.2.2.2.1, hc, errMax_eq]
+  cases (content s').maxIndex? <;> rfl
+
+theorem sim_keyAtRankQ {x : GPS grow} {s' : PStore} (h : Sim x (.pg s')) (q : Rat) :
+    gKeyAtRankQ x q = s'.keyAtRank q := by
+  obtain ⟨s, s'', cap, hx, hst, hi, hi', hc⟩ := h
+  cases hst
+  simp only [gKeyAtRankQ, hx, ofGen_toGen]
+  rw [KeyAtRank_eq s cap q _ (Nat.le_succ _), okOr_ok,
+    (Props.C04Pag.observers_eq s hi).2.2.2.2.2 q, (Props.C04Pag.observers_eq s' hi').2.2.2.2.2 q, hc]
+
+theorem sim_keyAtRank {x : GPS grow} {st : Store} (h : Sim x st) (r : F64) :
+    (StoreI.KeyAtRank x r : Int) = StoreI.KeyAtRank st r := by
+  have hmax := sim_maxIndex h
+  obtain ⟨s, s', cap, hx, rfl, hi, hi', hc⟩ := id h
+  simp only [gps_keyAtRank, gKeyAtRank, GenSketch.store_keyAtRank, Sketch.storeKeyAtRank]
+  have hm : (gMaxIndex x).1 = ((Store.pg s').maxIndex?).getD 0 := by
+    simp only [gps_maxIndex, GenSketch.store_maxIndex, GenSketch.storeMaxIndex] at hmax
+    rw [hmax]; cases (Store.pg s').maxIndex? <;> rfl
+  cases r with
+  | fin q => exact sim_keyAtRankQ h q
+  | ninf => exact sim_keyAtRankQ h 0
+  | pinf => exact hm
+  | nan => exact hm
+
 end DDS.GenPagSketch
